@@ -97,7 +97,11 @@ pub fn old_text(new_text: &str, edits: &[Edit], hostile: bool, variant: &dyn Fn(
 }
 
 pub struct StatePair {
-    /// (path, old text or None when the file is new, new text or None when it is deleted, old path when renamed)
+    /// (path, old text or None when the file is new, new text or None when it is deleted, old path when renamed).
+    /// Two path prefixes ask for entries a text pair cannot express: `@x:<path>` — the file becomes executable
+    /// in the new state (a mode-only entry when both texts are equal); `@l:<path>` — the old state holds a
+    /// symbolic link whose target is the old text, the new state a regular file (git prints a deletion
+    /// followed by an addition of the same path).
     pub files: Vec<(String, Option<String>, Option<String>, Option<String>)>,
 }
 
@@ -107,6 +111,11 @@ pub fn make_diff(sb: &Sandbox, pair: &StatePair, mode: &DiffMode) -> String {
     sb.write(".gitattributes", b"* -text\n");
     for (path, old, _, old_path) in &pair.files {
         if let Some(o) = old {
+            if let Some(link) = path.strip_prefix("@l:") {
+                let _ = std::os::unix::fs::symlink(o, sb.root.join(link));
+                continue;
+            }
+            let path = path.strip_prefix("@x:").unwrap_or(path);
             sb.write(old_path.as_deref().unwrap_or(path), o.as_bytes());
         }
     }
@@ -117,8 +126,17 @@ pub fn make_diff(sb: &Sandbox, pair: &StatePair, mode: &DiffMode) -> String {
         {
             sb.remove(op);
         }
+        let exec = path.starts_with("@x:");
+        let path = path.strip_prefix("@x:").or_else(|| path.strip_prefix("@l:")).unwrap_or(path);
         match new {
-            Some(t) => sb.write(path, t.as_bytes()),
+            Some(t) => {
+                sb.remove(path); // never write through a symbolic link of the old state
+                sb.write(path, t.as_bytes());
+                if exec {
+                    use std::os::unix::fs::PermissionsExt;
+                    let _ = std::fs::set_permissions(sb.root.join(path), std::fs::Permissions::from_mode(0o755));
+                }
+            }
             None => sb.remove(path),
         }
     }
